@@ -31,6 +31,12 @@ CLAIMED = {
  "C15": ("constant derivation with math/big from the modulus string, limb-alignment and carry-chain shape rules over the typed AST, write-effect analysis (K1, K2, W1; Z1/W5/asm rules added as built)",
          "Static decision that every modulus-derived constant in package fr (limbs of q, R, R^2, (q-1)/2+1, -q^-1, exponents, the Sqrt generator) equals the value computed from the decimal modulus in the role its context implies, that limb k meets limb k with the same operands in the same order in every carry chain, comparison cascade and Montgomery round, and that operands are never written. These are necessary conditions; the numeric correctness of CIOS, inversion, Tonelli-Shanks and of the assembly is not decided.",
          "4 C15, 3.5"),
+ "C12": ("goroutine/channel/pool discipline over SSA: per-goroutine slot classification of every write of every spawned function, join-before-use must-pass, channel capacity/count agreement, commutative fan-in, captured-cell stores, pool use-after-Put; plus write-effect immutability of shared state (G1-G7, W2, W3)",
+         "Static decision, for all schedules, that (1) state shared between API calls is written only during construction/initialisation; (2) inside a call every goroutine writes only its own slots (or a channel / sync object), (3) parents read those slots and return only after the join of each child, (4) sends fit capacities or are matched one-to-one by receives with the same bound, close follows the join, so no call blocks forever on its own channels, (5) pooled integers are never used after Put. 'Returns exactly what it returns alone' as a value-level statement and races inside dependencies are not decided.",
+         "4 C12, 3.6"),
+ "C20": ("CFG post-dominance/ordering and per-iteration-cell analysis of the executor (G7, G5, G3)",
+         "Static decision of the synchronisation clauses ONLY: Execute returns only after every invocation returned (Add before each spawn, Done after work on every path of the child, Wait on every path to return), each child calls work exactly once with the two values computed for its own iteration, one spawn per iteration; callers size result channels by the value they pass as the worker limit. NOT decided: the range arithmetic (disjoint contiguous cover of [0,n), at most min(n,m) invocations, no empty/out-of-bounds range) - it quantifies over integer values of n and m and needs enumeration or a solver, both outside this technique family; a remainder-distribution bug is not detected.",
+         "4 C20, 3.6 G7"),
 }
 NA_REASON = "check under construction (DESIGN.md 9.5 build order); no verdict claimed yet"
 
